@@ -41,7 +41,7 @@ CHECKS = {
                   "through a gated real LocalDirectory and the snapshots.notify gate; real LoadCheckpoint on materialised directory states; "
                   "retained-sets delivered to real dkv.DBs; deep overlap (Burst) against an unbuffered channel whose subscriber receives only "
                   "when the model delivers; the job -> operator boundary on the real jobs.Job (in-process cluster) with held "
-                  "UpdateRetainedCheckpoints requests",
+                  "UpdateRetainedCheckpoints requests; one cut per restart: spec/Restart.tla (start() stepped, publication in two steps) replayed on the real jobs.Job with fake nodes, the snapshot write and every step of start() gated (checks/restartlib.py)",
         text="TLC exhaustively checks LoadsNewest, NewestSurvives, RetainNamesNewest, OperatorsKeepNewest and CurrentIsNewest over every order of "
              "the write / delete / notify steps of up to 3 overlapping publications and a crash after any storage operation; the listing order "
              "of the base64url file names is computed in the spec and cross-checked against the real LocalDirectory.List at every restart. A "
